@@ -13,9 +13,20 @@ import (
 )
 
 type target struct {
-	http *httptest.Server
-	grpc *c11lib.Server
-	hits atomic.Int64
+	http   *httptest.Server
+	grpc   *c11lib.Server
+	hits   atomic.Int64
+	broken atomic.Bool
+}
+
+// refuse: from now on no request is answered — the http target drops every connection without a response, the gRPC
+// target answers Unavailable. The listeners stay open: a closed port could be taken over by the target of another
+// case running in this process.
+func (t *target) refuse() {
+	t.broken.Store(true)
+	if t.grpc != nil {
+		t.grpc.Refuse.Store(true)
+	}
 }
 
 func (t *target) stop() {
@@ -45,6 +56,15 @@ func newTarget(kind string) (*target, string, error) {
 		return t, s.Addr, nil
 	}
 	t.http = httptest.NewServer(http.HandlerFunc(func(w http.ResponseWriter, r *http.Request) {
+		if t.broken.Load() {
+			if hj, ok := w.(http.Hijacker); ok {
+				if c, _, err := hj.Hijack(); err == nil {
+					_ = c.Close()
+					return
+				}
+			}
+			panic(http.ErrAbortHandler)
+		}
 		t.hits.Add(1)
 		w.Header().Set("Content-Type", "application/json")
 		if strings.Contains(r.URL.Path, "e500") {
